@@ -13,7 +13,8 @@ let dispatch prop input observed =
   | "C17" -> Schema.run17 input observed
   | "C15" -> Schema.run15 input observed
   | "C07" -> Exec.run_c07 input observed
-  | "C01" | "C02" | "C06" | "C08" | "C09" | "C10" | "C11" -> Exec.run prop input observed
+  | "C02" -> Exec.run_c02 input observed
+  | "C01" | "C06" | "C08" | "C09" | "C10" | "C11" -> Exec.run prop input observed
   | p -> failwith ("modelrun: unknown property " ^ p)
 
 let () =
